@@ -231,42 +231,87 @@ def run(ctx):
 
     # ------------------------------------------------------------------ C06-escapes
     ctx.rule("C06-escapes", "string escapes denote the R7RS characters; unknown escapes are errors")
+    # whole-lexer runs (lexrun.py): the string "\<e>" for every character e of the alphabet, a plain string, an unterminated one
+    from . import lexrun as _lr
+    d_esc = 0
     sf = fb.find(LEX + "string")
-    table = {}
+    esc_bad = []
     for e in ALPHABET:
-        out, ev = scripted(sf, [ord("\\"), e], None, lexenv(34))
-        pushes = [x[1] for x in ev if x[0] == "push"]
-        if out == "err":
-            table[e] = "error"
-        elif pushes:
-            table[e] = pushes[0]
-        elif out == "more":
-            table[e] = "dropped"
+        toks = _lr.lex(fb, '"\\' + chr(e) + '" ')
+        if toks and toks[-1][0] in ("stuck", "panic"):
+            continue
+        d_esc += 1
+        first = toks[0] if toks else None
+        if first is not None and first[0] == "String":
+            got = first[1]
+        elif first is not None and first[0] == "error":
+            got = "error"
         else:
-            table[e] = out
-    for ch, code in R7RS_ESC.items():
-        ctx.inst("C06-escapes", "\\" + ch, table[ord(ch)])
-        if table[ord(ch)] != code:
-            ctx.report("C06-escapes", "escape/%s" % ch, "\\%s denotes %r, R7RS: U+%04X" % (ch, table[ord(ch)], code), where_of(sf))
-    for e in ALPHABET:
+            got = repr(first)
+        want = chr(R7RS_ESC[chr(e)]) if chr(e) in R7RS_ESC else "error"
+        ctx.inst("C06-escapes", "\\" + (chr(e) if 32 < e < 127 else "U+%04X" % e), {"reads_as": got})
         if chr(e) in R7RS_ESC:
-            continue
-        v = table[e]
-        if v == "error":
-            continue
-        name = {32: "space", 10: "newline", 9: "tab", ord("x"): "x"}.get(e, "U+%04X" % e)
-        ctx.inst("C06-escapes", "other/" + name, v)
-        if e in (ord("x"), 10, 13, 32, 9) and v not in ("dropped",) and not isinstance(v, int):
-            continue  # some other explicit handling (e.g. a hex scanner): not judged here
-        ctx.report("C06-escapes", "escape/" + name, "the escape \\%s is accepted and %s (neither an R7RS escape with that "
-                   "meaning nor an error)" % (name, "silently dropped" if v == "dropped" else "reads as %r" % (v,)), where_of(sf))
-    # plain characters are pushed unchanged, `"` terminates
-    out, ev = scripted(sf, [ord("a"), ord('"')], None, lexenv(34))
-    if [x for x in ev if x[0] == "push"] != [("push", ord("a"))] or out != "tok:Primitive:String":
-        ctx.report("C06-escapes", "plain", "a plain character is not appended unchanged / the closing quote does not end the "
-                   "string (%s, %s)" % (out, ev), where_of(sf))
-    if scripted(sf, [None], None, lexenv(34))[0] != "err":
-        ctx.report("C06-escapes", "unterminated", "an unterminated string is not an error", where_of(sf))
+            if got != want:
+                esc_bad.append(("escape/%s" % chr(e), "\\%s denotes %r, R7RS: U+%04X" % (chr(e), got, R7RS_ESC[chr(e)])))
+        elif got != "error":
+            if e in (ord("x"), 10, 13, 32, 9) and isinstance(got, str) and got not in ("", chr(e)):
+                continue              # some other explicit handling (a hex scanner, a line continuation): not judged here
+            name = {32: "space", 10: "newline", 9: "tab", ord("x"): "x"}.get(e, "U+%04X" % e)
+            esc_bad.append(("escape/" + name, "the escape \\%s is accepted and reads as %r (neither an R7RS escape with that meaning nor an "
+                            "error)" % (name, got)))
+    for key, msg in esc_bad:
+        ctx.report("C06-escapes", key, msg, where_of(sf))
+    pl = _lr.lex(fb, '"ab" ')
+    if pl and pl[-1][0] not in ("stuck", "panic"):
+        d_esc += 1
+        if [(k, p_) for k, p_, *_ in pl] != [("String", "ab")]:
+            ctx.report("C06-escapes", "plain", "the string \"ab\" is read as %s" % ([(k, p_) for k, p_, *_ in pl],), where_of(sf))
+    un = _lr.lex(fb, '"ab')
+    if un and un[-1][0] not in ("stuck", "panic"):
+        d_esc += 1
+        if not any(t_[0] == "error" for t_ in un):
+            ctx.report("C06-escapes", "unterminated", "an unterminated string is not an error (%s)" % (un,), where_of(sf))
+
+    def _old_escapes():
+        sf = fb.find(LEX + "string")
+        table = {}
+        for e in ALPHABET:
+            out, ev = scripted(sf, [ord("\\"), e], None, lexenv(34))
+            pushes = [x[1] for x in ev if x[0] == "push"]
+            if out == "err":
+                table[e] = "error"
+            elif pushes:
+                table[e] = pushes[0]
+            elif out == "more":
+                table[e] = "dropped"
+            else:
+                table[e] = out
+        for ch, code in R7RS_ESC.items():
+            ctx.inst("C06-escapes", "\\" + ch, table[ord(ch)])
+            if table[ord(ch)] != code:
+                ctx.report("C06-escapes", "escape/%s" % ch, "\\%s denotes %r, R7RS: U+%04X" % (ch, table[ord(ch)], code), where_of(sf))
+        for e in ALPHABET:
+            if chr(e) in R7RS_ESC:
+                continue
+            v = table[e]
+            if v == "error":
+                continue
+            name = {32: "space", 10: "newline", 9: "tab", ord("x"): "x"}.get(e, "U+%04X" % e)
+            ctx.inst("C06-escapes", "other/" + name, v)
+            if e in (ord("x"), 10, 13, 32, 9) and v not in ("dropped",) and not isinstance(v, int):
+                continue  # some other explicit handling (e.g. a hex scanner): not judged here
+            ctx.report("C06-escapes", "escape/" + name, "the escape \\%s is accepted and %s (neither an R7RS escape with that "
+                       "meaning nor an error)" % (name, "silently dropped" if v == "dropped" else "reads as %r" % (v,)), where_of(sf))
+        # plain characters are pushed unchanged, `"` terminates
+        out, ev = scripted(sf, [ord("a"), ord('"')], None, lexenv(34))
+        if [x for x in ev if x[0] == "push"] != [("push", ord("a"))] or out != "tok:Primitive:String":
+            ctx.report("C06-escapes", "plain", "a plain character is not appended unchanged / the closing quote does not end the "
+                       "string (%s, %s)" % (out, ev), where_of(sf))
+        if scripted(sf, [None], None, lexenv(34))[0] != "err":
+            ctx.report("C06-escapes", "unterminated", "an unterminated string is not an error", where_of(sf))
+
+
+    ctx.guarded("C06-escapes", d_esc >= 100, _old_escapes)
 
     # ------------------------------------------------------------------ C06-position
     ctx.rule("C06-position", "every consumed character is counted: LF => line+1, column=1; otherwise column+1")
@@ -277,7 +322,15 @@ def run(ctx):
                     and "char" in " ".join(t.get("argtys", [])) + f.local_ty(t["dest"]["local"]):
                 owner = f.name
                 ctx.inst("C06-position", "consumer/" + owner)
-                if owner != adv.name and owner.startswith("parser::lexer::"):
+                callers_ = fb.callers("lib")
+
+                def only_from_advance(nm, depth=3):
+                    nm = nm.split("::{closure")[0]
+                    if nm == adv.name:
+                        return True
+                    cs = {x.split("::{closure")[0] for x in callers_.get(nm, ())} - {nm}
+                    return depth > 0 and bool(cs) and all(only_from_advance(x, depth - 1) for x in cs)
+                if owner != adv.name and owner.startswith("parser::lexer::") and not only_from_advance(owner):
                     ctx.report("C06-position", "consumer/" + owner, "%s consumes a character without Lexer::advance (position "
                                "not updated)" % owner, where_of(f, t))
     # decision table of advance(1) by abstract evaluation of the whole function (helpers followed): position after a character
